@@ -114,6 +114,12 @@ HANDMADE = [
     "[CH3:1][CH:2]=[O:3].[H:4][N:5]([H:6])[CH3:7]>>[CH3:1][CH:2]=[N:5][CH3:7].[H:4][O:3][H:6]",
     "[H:1][N:2]([H:3])[CH3:4].[Cl:5][Cl:6].[Cl:7][Cl:8]>>[Cl:5][N:2]([Cl:7])[CH3:4].[H:1][Cl:6].[H:3][Cl:8]",
     "[CH3:1][C:2]#[N:3].[H:4][H:5].[H:6][H:7]>>[CH3:1][C:2]([H:4])([H:6])[N:3]([H:5])[H:7]",
+    # free hydrogen atoms (homolysis), and reactions that change atoms only (no bond between mapped atoms changes)
+    "[H:1][H:2]>>[H:1].[H:2]",
+    "[CH3:1][H:2]>>[CH3:1].[H:2]",
+    "[CH3:1][NH2:2].[OH3+:3]>>[CH3:1][NH3+:2].[OH2:3]",
+    "[Fe+2:1].[Cu+2:2]>>[Fe+3:1].[Cu+:2]",
+    "[cH:1]1[cH:2][cH:3][cH:4][cH:5][n:6]1.[ClH:7]>>[cH:1]1[cH:2][cH:3][cH:4][cH:5][nH+:6]1.[Cl-:7]",
 ]
 
 
